@@ -91,6 +91,19 @@ func corpus() []*Spec {
 
 func long25Spec() *Spec { return sStr(long25) }
 
+// matrixValues: see run(), step 1b
+func matrixValues() []*Spec {
+	s1 := func() *Spec { return sSens(1, sStr("a")) }
+	s2 := func() *Spec { return sSens(2, sStr(long20)) }
+	b1 := func() *Spec { return sBin(3, 1, 2) }
+	sv := func() *Spec { return sK("semver", 5, "1.2.3-rc1+b5") }
+	ckh := func() *Spec { return sHash(6, sInt(1), sStr(long20), sStr(long20), sInt(2), sStr("abc"), b1()) }
+	return []*Spec{
+		sArr(0, s1(), s2(), sStr("x"), s2(), b1(), sStr("AQI="), b1(), sStr(sensText), s1(), sStr(long20), sStr(long20),
+			sStr("abc"), sStr("abc"), sv(), sv(), sDefault(), ckh(), ckh()),
+	}
+}
+
 // exhaustiveFamily: every array of length 1..maxLen over an alphabet of atoms with fixed identities:
 // two Sensitive, two Binary, strings equal to their degraded forms, a container holding one of them,
 // a rich scalar, a short string, a complex-key hash.  This is the family in which the order of first
